@@ -42,7 +42,10 @@ class Parser(BaseParser):
         return self.parse_tree(tree)
 
     def parse_string(self, value):
-        return self.parse_bytes(value.encode(self.encoding))
+        # a str needs no encoding: re-encoding it without an XML declaration
+        # made the XML parser assume UTF-8 whatever self.encoding was
+        tree = ET.fromstring(value)
+        return self.parse_tree(tree)
 
     def parse_stream(self, stream):
         tree = ET.parse(stream)
